@@ -18,7 +18,7 @@ HEADLINE = ['motors', 'evaluations', 'region_dead_zone', 'region_boundary_ulp', 
 
 def floors(tier):
     return {'evaluations': 50000, 'region_dead_zone': 3000, 'region_boundary_ulp': 3000, 'region_normal_pos': 8000, 'region_normal_neg': 8000,
-            'region_beyond_no_load': 3000, 'region_no_current_data': 2000, 'antisymmetry_pairs': 20000, 'continuity_checks': 500, 'derived_facts': 1000, 'simulation_current_samples': 2000}
+            'region_beyond_no_load': 3000, 'region_no_current_data': 2000, 'antisymmetry_pairs': 20000, 'continuity_checks': 500, 'derived_facts': 1000, 'simulation_current_samples': 2000, 'decoupled_current_evaluations': 1500}
 
 
 def n_cases(tier):
@@ -105,6 +105,38 @@ def one_motor(ctx, idx, tier):
                 if abs(SI.si(Tout)) > Tmax * cond * 1e-12 * (1 + x) + 1e-9 * Tmax or SI.si(Tin) != 0 or abs(SI.si(iout) - SI.si(iin)) > 1e-9 * imax * (1 + x):
                     ctx.violation('C08:discontinuity-at-dead-zone-boundary', {'motor': ms, 'boundary': s * b, 'speed': wq, 'T_inside': SI.si(Tin), 'T_outside': SI.si(Tout),
                                                                              'i_inside': SI.si(iin), 'i_outside': SI.si(iout)}, case)
+    # the current law for a *given* driving torque and duty cycle: the duty cycle is changed after the torque was computed
+    # and the driving torque is set through its public setter (nothing computed earlier may be reused)
+    if cur:
+        import gearpy.units as U_
+        for _ in range(6):
+            D1 = rng.choice([1, -1, rng.uniform(-1, 1)])
+            D2 = rng.choice([1, -1, 0.5, -0.5, rng.uniform(-1, 1), rng.uniform(-b, b) if b > 0 else 0.3])
+            if abs(D2) < 1e-6 or abs(abs(D2) - b) <= 1e-9 * max(b, 1e-300):
+                continue
+            try:
+                evaluate(m, D1, {'v': rng.uniform(-1, 1) * w0 / fw, 'u': wu}, True)
+                m.pwm = D2
+                Tset = rng.uniform(-1.5, 1.5) * Tmax
+                tu_ = rng.choice(SI.units('Torque'))
+                m.driving_torque = U_.Torque(SI.from_si('Torque', Tset, tu_), tu_)
+                Tset = SI.si(m.driving_torque)
+                m.compute_electric_current()
+                got = SI.si(m.electric_current)
+            except Exception as ex:
+                ctx.violation('C08:exception-in-domain', {'motor': ms, 'D_before': D1, 'D': D2, 'exception': type(ex).__name__ + ': ' + str(ex)[:150]}, case)
+                break
+            ctx.count('decoupled_current_evaluations')
+            if abs(D2) <= b:
+                exp = D2 * imax
+            else:
+                TD = RM.tmax_d(Tmax, i0, imax, D2)
+                exp = ((D2 * imax - i0) if D2 > 0 else (D2 * imax + i0)) * (Tset / TD) + (i0 if D2 > 0 else -i0)
+            cond = imax / (imax - i0)
+            if abs(got - exp) > 1e-9 * abs(exp) + imax * 1e-12 * cond * (1 + abs(Tset / Tmax) / max(abs(abs(D2) - b), 1e-9)):
+                ctx.violation('C08:current-for-given-torque', {'motor': ms, 'duty_cycle_of_the_earlier_torque_computation': D1, 'duty_cycle': D2, 'driving_torque_set': Tset,
+                                                               'got': got, 'reference': exp}, case)
+                break
     try:
         T1, i1 = evaluate(m, 1, {'v': 0.0, 'u': wu}, cur)
         T2, i2 = evaluate(m, 1, {'v': w0 / fw, 'u': wu}, cur)
